@@ -623,6 +623,8 @@ func (push *Push) runTask(input *pushNotify) {
 				}
 				if lastProcessedseq <= 0 { //如果不配置startSeq 则默认从最新的seq开始
 					lastProcessedseq = lastesBlockSeq
+					// 持久化起始位置, 否则在首次推送成功前被停用再激活(或重启)时会重新跳到最新的seq, 中间的seq丢失
+					_ = push.setLastPushSeq(subscribe.Name, lastProcessedseq)
 					continue
 				}
 				chainlog.Debug("another new block", "subscribe name", subscribe.Name, "Type", PushType(subscribe.Type).String(),
